@@ -44,6 +44,10 @@ LIST = ('list',)
 OTHER = ('other',)
 MIN_ENTRY = ('minentry',)
 MIN_EVENT = ('minevent',)
+ID_K = ('idK',)            # the id of the event under analysis
+ID_O = ('idO',)            # the id of some other event
+UNK = ('unkint',)          # an integer this domain does not know (a count kept for another event)
+UBOOL = ('ubool',)         # a truth value this domain does not know: both branches are followed and must agree on everything tracked
 
 CASES = [('empty', 'the list is empty'), ('absent', 'other events are pending, this one is not'), ('first', 'the event is the first element of the backing list'),
          ('later', 'the event stands at a later position of the backing list')]
@@ -55,9 +59,26 @@ class Interp:
         self.is_key = is_key                 # (expr, name bound to the event) -> bool: the expression is the key add() stores for that event
         self.present = case in ('first', 'later')
         self.others = case != 'empty' and (case == 'absent' or None)      # True: certainly other elements; None: not known (K may be alone)
-        self.removed = None                  # None | 'K' | 'other' | 'min'
+        self.removed = None                  # None | 'K' | 'other' | 'min' | 'all'
         self.depth = 0
         self.ev_index = None                 # position of the event in a heap entry (None: the events are the entries)
+        self.index_fields = ()               # dict / set fields kept beside the list (event id -> count / membership)
+        self.id_index = None                 # position of the id in a heap entry
+        self.comp_of = None                  # (expr, event name) -> 'id' | 'time' | ...  for attribute reads of the event
+        self.idx = {}                        # index field -> count recorded for the id of the event under analysis
+        self.min_is_K = False
+
+    def _state(self):
+        return (self.present, self.removed, self.case, tuple(sorted(self.idx.items())), self.min_is_K)
+
+    def _restore(self, st):
+        self.present, self.removed, self.case, idx, self.min_is_K = st
+        self.idx = dict(idx)
+
+    def _count(self, X):
+        if X not in self.idx:
+            self.idx[X] = 1 if (self.case in ('first', 'later')) else 0      # the class invariant: recorded exactly when on the list
+        return self.idx[X]
 
     # ------------------------------------------------------------------ statements
     def run(self, fn):
@@ -86,7 +107,32 @@ class Interp:
         if isinstance(st, ast.Raise):
             raise _Raise(unparse(st.exc.func) if isinstance(st.exc, ast.Call) else (unparse(st.exc) if st.exc is not None else 're-raise'))
         if isinstance(st, ast.If):
-            self.block(st.body if self.truth(self.ev(st.test, env)) else st.orelse, env)
+            t = self.ev(st.test, env)
+            if t == UBOOL:
+                # not decided in this domain: both branches, which must agree on everything tracked
+                outs = []
+                st0 = self._state()
+                for blk in (st.body, st.orelse):
+                    self._restore(st0)
+                    e2 = dict(env)
+                    try:
+                        self.block(blk, e2)
+                        outs.append(('fall', None, self._state(), e2))
+                    except _Return as r:
+                        outs.append(('return', r.value, self._state(), e2))
+                    except _Raise as r:
+                        outs.append(('raise', r.kind, self._state(), e2))
+                if outs[0][:3] != outs[1][:3]:
+                    raise Unsupported('branches of an undecided test differ')
+                self._restore(outs[0][2])
+                for k in set(outs[0][3]) | set(outs[1][3]):
+                    env[k] = outs[0][3].get(k) if outs[0][3].get(k) == outs[1][3].get(k) else UNK
+                if outs[0][0] == 'return':
+                    raise _Return(outs[0][1])
+                if outs[0][0] == 'raise':
+                    raise _Raise(outs[0][1])
+                return
+            self.block(st.body if self.truth(t) else st.orelse, env)
             return
         if isinstance(st, (ast.Assign, ast.AnnAssign)):
             if getattr(st, 'value', None) is None:
@@ -95,13 +141,49 @@ class Interp:
             for t in (st.targets if isinstance(st, ast.Assign) else [st.target]):
                 if isinstance(t, ast.Name):
                     env[t.id] = v
+                elif isinstance(t, ast.Subscript) and is_self_attr(t.value) and t.value.attr in self.index_fields:
+                    k = self.ev(t.slice, env)
+                    if k == ID_K:
+                        if not (isinstance(v, tuple) and v[0] == 'int'):
+                            raise Unsupported('a count this domain does not know is recorded for the event')
+                        self._count(t.value.attr)
+                        self.idx[t.value.attr] = v[1]
+                    elif k != ID_O:
+                        raise Unsupported('index store under something else than an event id')
+                elif is_self_attr(t, self.F) and isinstance(st.value, ast.List) and not st.value.elts:
+                    self.present, self.removed = False, 'all'
+                elif is_self_attr(t) and t.attr in self.index_fields and ((isinstance(st.value, ast.Dict) and not st.value.keys)
+                                                                         or (isinstance(st.value, ast.Call) and unparse(st.value.func) in ('dict', 'set') and not st.value.args)):
+                    self.idx[t.attr] = 0
                 else:
                     raise Unsupported(f'assignment to `{unparse(t)}`')
+            return
+        if isinstance(st, ast.AugAssign) and isinstance(st.target, ast.Subscript) and is_self_attr(st.target.value) and st.target.value.attr in self.index_fields \
+                and isinstance(st.op, (ast.Add, ast.Sub)):
+            k = self.ev(st.target.slice, env)
+            d = self.ev(st.value, env)
+            X = st.target.value.attr
+            if k == ID_K:
+                if self._count(X) == 0:
+                    raise _Raise('KeyError')
+                if not (isinstance(d, tuple) and d[0] == 'int'):
+                    raise Unsupported('index changed by an unknown amount')
+                self.idx[X] = self.idx[X] + (d[1] if isinstance(st.op, ast.Add) else -d[1])
+            elif k != ID_O:
+                raise Unsupported('index update under something else than an event id')
             return
         if isinstance(st, ast.Delete):
             for t in st.targets:
                 if isinstance(t, ast.Subscript) and is_self_attr(t.value, self.F) and not isinstance(t.slice, ast.Slice):
                     self.remove_at(self.ev(t.slice, env))
+                elif isinstance(t, ast.Subscript) and is_self_attr(t.value) and t.value.attr in self.index_fields:
+                    k = self.ev(t.slice, env)
+                    if k == ID_K:
+                        if self._count(t.value.attr) == 0:
+                            raise _Raise('KeyError')
+                        self.idx[t.value.attr] = 0
+                    elif k != ID_O:
+                        raise Unsupported('index deletion under something else than an event id')
                 else:
                     raise Unsupported(f'del `{unparse(t)}`')
             return
@@ -130,6 +212,8 @@ class Interp:
     def position(self):
         if not self.present:
             raise _Raise('ValueError')
+        if self.case == 'somewhere':
+            raise Unsupported('position of an event pushed on this path')
         return ('int', 0) if self.case == 'first' else POS
 
     def remove_key(self):
@@ -173,6 +257,8 @@ class Interp:
             return v[1] != 0
         if v in (POS, LEN, KEY, EVENT, OTHER, MIN_ENTRY, MIN_EVENT):
             return True
+        if v in (UNK, UBOOL):
+            raise Unsupported('a value this domain does not know decides a condition')
         if v == LIST:
             return self.nonempty()
         raise Unsupported(f'truth of {v}')
@@ -215,7 +301,18 @@ class Interp:
         if isinstance(e, ast.Attribute):
             if is_self_attr(e, self.F):
                 return LIST
+            if is_self_attr(e) and e.attr in self.index_fields:
+                return ('index', e.attr)
+            if isinstance(e.value, ast.Name) and env.get(e.value.id) == EVENT and self.comp_of is not None and self.comp_of(e, e.value.id) == 'id':
+                return ID_K
             return OTHER
+        if isinstance(e, ast.BinOp) and isinstance(e.op, (ast.Add, ast.Sub)):
+            a, b = self.ev(e.left, env), self.ev(e.right, env)
+            if isinstance(a, tuple) and a[0] == 'int' and isinstance(b, tuple) and b[0] == 'int':
+                return ('int', a[1] + b[1] if isinstance(e.op, ast.Add) else a[1] - b[1])
+            if UNK in (a, b) and all(x == UNK or (isinstance(x, tuple) and x[0] == 'int') for x in (a, b)):
+                return UNK
+            raise Unsupported(f'arithmetic `{unparse(e)[:40]}`')
         if isinstance(e, ast.Compare) and len(e.ops) == 1:
             return self.compare(e, env)
         if isinstance(e, ast.Call):
@@ -226,9 +323,27 @@ class Interp:
             if base == LIST and i == ('int', 0):
                 if not self.nonempty():
                     raise _Raise('IndexError')
+                self.min_is_K = self.present and self.case == 'first'
                 return MIN_ENTRY                     # F[0] of a heap: the entry with the smallest key (the heap discipline is R1.1)
             if base == MIN_ENTRY and isinstance(i, tuple) and i[0] == 'int':
+                if i[1] == self.id_index and self.id_index is not None:
+                    return ID_K if self.min_is_K else ID_O
                 return MIN_EVENT if i[1] == self.ev_index else ('component', i[1])
+            if base == KEY and isinstance(i, tuple) and i[0] == 'int':
+                if i[1] == self.id_index and self.id_index is not None:
+                    return ID_K
+                if i[1] == self.ev_index:
+                    return EVENT
+                return OTHER
+            if isinstance(base, tuple) and base[0] == 'index':
+                X = base[1]
+                if i == ID_K:
+                    if self._count(X) == 0:
+                        raise _Raise('KeyError')
+                    return ('int', self.idx[X])
+                if i == ID_O:
+                    return UNK
+                raise Unsupported('index lookup with something else than an event id')
             raise Unsupported(f'subscript `{unparse(e)[:40]}`')
         if isinstance(e, ast.JoinedStr):
             return OTHER
@@ -250,6 +365,15 @@ class Interp:
     def compare(self, e, env):
         op = e.ops[0]
         a, b = self.ev(e.left, env), self.ev(e.comparators[0], env)
+        if isinstance(op, (ast.In, ast.NotIn)) and isinstance(b, tuple) and b[0] == 'index':
+            if a == ID_K:
+                r = self._count(b[1]) > 0
+                return ('bool', r if isinstance(op, ast.In) else not r)
+            if a == ID_O:
+                return UBOOL
+            raise Unsupported('index membership of something else than an event id')
+        if UNK in (a, b) and isinstance(op, (ast.Lt, ast.LtE, ast.Gt, ast.GtE, ast.Eq, ast.NotEq)):
+            return UBOOL
         if isinstance(op, (ast.In, ast.NotIn)):
             if b != LIST:
                 raise Unsupported('membership in something else')
@@ -343,7 +467,16 @@ class Interp:
             if not self.nonempty():
                 raise _Raise('IndexError')
             self.removed = 'min'
+            self.min_is_K = self.present and self.case == 'first'      # position 0 of a heap is its minimum
+            if self.min_is_K:
+                self.present = False
             return MIN_ENTRY
+        if ft == 'heapq.heappush' and len(e.args) == 2 and self.ev(e.args[0], env) == LIST:
+            v = self.ev(e.args[1], env)
+            if v != KEY or self.present:
+                raise Unsupported('push of something else than the key of an absent event')
+            self.present, self.case = True, 'somewhere'
+            return NONE
         if isinstance(f, ast.Attribute):
             recv, m = f.value, f.attr
             if isinstance(recv, ast.Name) and recv.id == 'self':
@@ -383,7 +516,33 @@ class Interp:
                     return OTHER
                 if m == '__contains__' and args == [KEY]:
                     return ('bool', self.present)
+                if m == 'clear' and not args:
+                    self.present, self.removed = False, 'all'
+                    return NONE
                 raise Unsupported(f'list operation .{m}')
+            if isinstance(rv, tuple) and rv[0] == 'index' and not e.keywords:
+                X = rv[1]
+                if m == 'clear' and not args:
+                    self.idx[X] = 0
+                    return NONE
+                if m == 'get' and args and args[0] == ID_K:
+                    return ('int', self.idx[X]) if self._count(X) > 0 else (args[1] if len(args) > 1 else NONE)
+                if m == 'get' and args and args[0] == ID_O:
+                    return UNK
+                if m in ('add',) and args == [ID_K]:
+                    self._count(X)
+                    self.idx[X] = 1
+                    return NONE
+                if m in ('discard', 'remove', 'pop') and args and args[0] == ID_K:
+                    if self._count(X) == 0:
+                        if m == 'discard' or (m == 'pop' and len(args) > 1):
+                            return NONE
+                        raise _Raise('KeyError')
+                    self.idx[X] = 0
+                    return NONE
+                if m in ('add', 'discard', 'remove', 'pop') and args and args[0] == ID_O:
+                    return UNK
+                raise Unsupported(f'index operation .{m}')
             raise Unsupported(f'call `{unparse(e)[:40]}`')
         raise Unsupported(f'call `{unparse(e)[:40]}`')
 
@@ -396,12 +555,22 @@ def _as_bool(v):
     return None
 
 
-def check_observers(prog, cls, F, is_key, contains_fn, remove_fn):
+def _configure(it, cfg):
+    if cfg:
+        it.index_fields, it.id_index, it.comp_of = tuple(cfg.get('index_fields', ())), cfg.get('id_index'), cfg.get('comp_of')
+        if cfg.get('ev_index') is not None:
+            it.ev_index = cfg['ev_index']
+        for X in it.index_fields:
+            it._count(X)
+
+
+def check_observers(prog, cls, F, is_key, contains_fn, remove_fn, cfg=None):
     """-> ({'contains': [(case id, description, what is wrong)], 'remove': [...]}, None)  or  (None, reason outside the domain)"""
     problems = {'contains': [], 'remove': []}
     for kind, fn in (('contains', contains_fn), ('remove', remove_fn)):
         for (cid, desc) in CASES:
             it = Interp(prog, cls, F, cid, is_key)
+            _configure(it, cfg)
             try:
                 out = it.run(fn)
             except Unsupported as e:
@@ -435,13 +604,14 @@ def check_observers(prog, cls, F, is_key, contains_fn, remove_fn):
     return problems, None
 
 
-def check_peek_pop(prog, cls, F, ev_index, peek_fn, pop_fn):
+def check_peek_pop(prog, cls, F, ev_index, peek_fn, pop_fn, cfg=None):
     """peek_first / pop_first for an empty and a non-empty list -> ({'peek_first': [...], 'pop_first': [...]}, None) or (None, reason)"""
     problems = {'peek_first': [], 'pop_first': []}
     for kind, fn in (('peek_first', peek_fn), ('pop_first', pop_fn)):
         for (cid, desc) in (('empty', 'the list is empty'), ('absent', 'events are pending')):
             it = Interp(prog, cls, F, cid, lambda e, n: False)
             it.ev_index = ev_index
+            _configure(it, cfg)
             env_fn = fn
             try:
                 try:
@@ -474,4 +644,38 @@ def check_peek_pop(prog, cls, F, ev_index, peek_fn, pop_fn):
                 elif kind == 'pop_first' and it.removed != 'min':
                     problems[kind].append((cid, desc, 'pop_first() hands out the first event without removing it' if it.removed is None
                                            else 'pop_first() removes another element than the smallest'))
+    return problems, None
+
+
+def check_index_consistency(prog, cls, F, is_key, comp_of, index_fields, ev_index, id_index, methods):
+    """An index kept beside the list (event id -> count, or a set of ids) records the event exactly while it is on the list: assumed at
+    entry, required at every normal exit of add / pop_first / remove / clear / contains / peek_first, for every case of the entry state.
+    -> ([(method, case description, what is wrong)], None) or (None, reason)."""
+    problems = []
+    for mname, fn in methods.items():
+        takes_event = len(fn.args.args) > 1
+        for (cid, desc) in CASES:
+            if mname == 'add' and cid in ('first', 'later'):
+                continue                      # the same event added twice is outside the domain
+            it = Interp(prog, cls, F, cid, is_key)
+            it.index_fields, it.ev_index, it.id_index, it.comp_of = tuple(index_fields), ev_index, id_index, comp_of
+            for X in index_fields:
+                it._count(X)
+            try:
+                try:
+                    it.block(body_of(fn), {fn.args.args[1].arg: EVENT} if takes_event else {})
+                except _Return:
+                    pass
+                except _Raise as e:
+                    problems.append((mname, desc, f'{e.kind} escapes'))
+                    continue
+            except Unsupported as e:
+                return None, f'{mname}: {e}'
+            except RecursionError:
+                return None, 'recursion'
+            for X in index_fields:
+                c = it.idx.get(X, 0)
+                if (c > 0) != it.present or c not in (0, 1):
+                    problems.append((mname, desc, f'afterwards the event is {"on" if it.present else "not on"} the list but `{X}` records {c} entr{"y" if c == 1 else "ies"} '
+                                                  f'for it: contains() and the guard of remove() then answer for a list that no longer exists'))
     return problems, None
